@@ -1557,6 +1557,16 @@ LEX_TABLES = [
     ("heapmem_from_raw_parts_fields", "mem/heap.rs", "from_raw_parts", None),
     ("heap_build_fields", "mem/heap.rs", "build", None),
 ]
+_ACC = [("as_ptr", None), ("as_mut_ptr", None), ("element_layout", None), ("size", None)]
+MEM_ACCESSOR_TABLES = [
+    ("heap_mem_accessors", "mem/heap.rs", "impl Mem for HeapMem", _ACC),
+    ("stack_mem_accessors", "mem/stack.rs", "Mem for StackMem<SIZE>", _ACC),
+    ("stackn_mem_accessors", "mem/stack_n.rs", "Mem for StackNMem<N, SIZE>", _ACC),
+    ("empty_mem_accessors", "mem/empty.rs", "impl Mem for EmptyMem",
+     _ACC + [("into_raw_parts", "impl MemRawParts for EmptyMem"), ("from_raw_parts", "impl MemRawParts for EmptyMem"),
+             ("build", "impl MemBuilder for Empty")]),
+    ("mem_mod_helpers", "mem/mod.rs", "pub trait MemRawParts", [("dangling", None)]),
+]
 def translate_lex(repo_src):
     out = []; errors = {}
     for (lname, f, fn, marker) in LEX_TABLES:
@@ -1580,6 +1590,22 @@ def translate_lex(repo_src):
         errors["heapmem_into_raw_parts_text"] = "translator failure: %r" % (ex,); lean = '"error"'
     out.append("/-- `into_raw_parts` in src/mem/heap.rs, token by token -/")
     out.append("def heapmem_into_raw_parts_text : String :=\n  %s\n" % lean)
+    # the storage backends' accessors (`impl Mem for …`): one row per accessor, the body token by token; and the raw-parts
+    # functions and `build` of the capacity-less backend
+    for (lname, f, marker, fns) in MEM_ACCESSOR_TABLES:
+        rows = []
+        try:
+            src = strip_comments(open(os.path.join(repo_src, f)).read())
+            for (fn, mk) in fns:
+                toks = [t[1] for t in tokenize(find_fn(src, fn, mk or marker))]
+                rows.append((fn, " ".join(toks).replace('"', "'")))
+            lean = "[" + ", ".join('("%s", "%s")' % r for r in rows) + "]"
+        except KernelError as ex:
+            errors[lname] = str(ex); lean = '[("error", "%s")]' % str(ex).replace('"', "'")
+        except Exception as ex:
+            errors[lname] = "translator failure: %r" % (ex,); lean = '[("error", "translator failure")]'
+        out.append("/-- the accessors of `%s` in src/%s, token by token -/" % (marker, f))
+        out.append("def %s : List (String × String) :=\n  %s\n" % (lname, lean))
     # alignment of the in-place buffers vs. the largest element alignment they accept
     try:
         vals = {}
